@@ -17,7 +17,10 @@ DAY = 24 * HOUR
 
 GEN_DATA = ([{"app": f"a{j}", "n": j} for j in range(31)] +
             [{}, {"u": "ünï中😀"}, {"nested": {"l": [1, [2, 3], {"k": None}]}}, {"title": "q'uote\"s \\ and\nnewline"},
-             {"n": 1}, {"n": 1.0}, {"status": "afk"}, {"status": "not-afk"}])
+             {"n": 1}, {"n": 1.0}, {"status": "afk"}, {"status": "not-afk"},
+             # round 5 (fix6-data): titles cut in the middle of an emoji (lone high / lone low surrogate), NUL, U+2028, astral
+             {"app": "chat", "title": "Team chat \ud83d"}, {"app": "chat", "title": "\ude00 rest of a title"},
+             {"title": "nul\u0000inside", "sep": "line\u2028sep", "astral": "x\U00010000y\U0010ffff"}])
 GEN_TZ = [0, 0, 0, 0, 120, -300, 330]
 
 
@@ -181,7 +184,12 @@ def restyle_json(text, style):
     if style == "compact":
         return json.dumps(v, separators=(",", ":"))
     if style == "utf8":
-        return json.dumps(v, ensure_ascii=False)
+        raw = json.dumps(v, ensure_ascii=False)
+        try:
+            raw.encode("utf-8")
+        except UnicodeEncodeError:     # a lone surrogate has no UTF-8 form: such a text exists only with that escape
+            raw = "".join(ch if not 0xD800 <= ord(ch) <= 0xDFFF else "\\u%04x" % ord(ch) for ch in raw)
+        return raw
     if style == "spaced":
         return json.dumps(v, separators=(" , ", " : "))
     if style == "reversed":
